@@ -22,7 +22,6 @@ import (
 	"os"
 	"path"
 	"path/filepath"
-	"reflect"
 	"strconv"
 	"strings"
 	"sync"
@@ -818,6 +817,21 @@ func (s *Server) GetReplicationConfig() *config.ReplicationConfig {
 	return s.persistOptions.GetReplicationConfig().Clone()
 }
 
+// sameLabels compares two label lists by content: a nil and an empty list are the
+// same (a rule that went through JSON has nil location labels, the replication
+// config has an empty slice).
+func sameLabels(a, b []string) bool {
+	if len(a) != len(b) {
+		return false
+	}
+	for i := range a {
+		if a[i] != b[i] {
+			return false
+		}
+	}
+	return true
+}
+
 // SetReplicationConfig sets the replication config.
 func (s *Server) SetReplicationConfig(cfg config.ReplicationConfig) error {
 	if err := cfg.Validate(); err != nil {
@@ -856,14 +870,14 @@ func (s *Server) SetReplicationConfig(cfg config.ReplicationConfig) error {
 				return errors.New("cannot update MaxReplicas or LocationLabels when placement rules feature is enabled and not only default rule exists, please update rule instead")
 			}
 			rule = defaultRule
-			if !(rule.Count == int(old.MaxReplicas) && reflect.DeepEqual(rule.LocationLabels, []string(old.LocationLabels))) {
+			if !(rule.Count == int(old.MaxReplicas) && sameLabels(rule.LocationLabels, old.LocationLabels)) {
 				return errors.New("cannot to update replication config, the default rules do not consistent with replication config, please update rule instead")
 			}
 
 			return nil
 		}
 
-		if !(cfg.MaxReplicas == old.MaxReplicas && reflect.DeepEqual(cfg.LocationLabels, old.LocationLabels)) {
+		if !(cfg.MaxReplicas == old.MaxReplicas && sameLabels(cfg.LocationLabels, old.LocationLabels)) {
 			if err := CheckInDefaultRule(); err != nil {
 				return err
 			}
